@@ -15,7 +15,8 @@ CONSTANTS MaxStepsSet,   \* set of step budgets explored
           PatienceSet,   \* set of patience values explored
           MaxLen,        \* bound on events since the last reset (state constraint)
           MaxResets,     \* bound on resets in a behaviour
-          KeepHist       \* TRUE: keep the event history (for the statement-level invariant)
+          KeepHist,      \* TRUE: keep the event history (for the statement-level invariant)
+          WithSnap       \* TRUE: also explore state_dict() / load_state_dict() into a fresh object (checkpointing)
 
 VARIABLES c,      \* configuration record [max, pat] chosen once
           steps,  \* controller.steps
@@ -24,9 +25,11 @@ VARIABLES c,      \* configuration record [max, pat] chosen once
           hist,   \* abstract events since the last reset (<<>> when ~KeepHist)
           n,      \* number of events since the last reset
           resets, \* number of resets so far
-          loop    \* driver loop: "idle" | "running" | "done";  loopSteps counted in n
+          loop,   \* driver loop: "idle" | "running" | "done";  loopSteps counted in n
+          saved   \* snapshot taken by state_dict() (NoSnap if none): checkpoint of a StopOnPlateau
 
-vars == <<c, steps, pc, cont, hist, n, resets, loop>>
+vars == <<c, steps, pc, cont, hist, n, resets, loop, saved>>
+NoSnap == [none |-> TRUE]
 
 \* ---------------------------------------------------------------- abstract alphabet
 \* dec: how the loss moved relative to the configured amount;
@@ -58,40 +61,52 @@ Stopped(cfg, h) == \E i \in 1..Len(h) : Cause(cfg, h, i)
 Init ==
   /\ c \in [max : MaxStepsSet, pat : PatienceSet]
   /\ steps = 0 /\ pc = 0 /\ cont = TRUE
-  /\ hist = <<>> /\ n = 0 /\ resets = 0 /\ loop = "idle"
+  /\ hist = <<>> /\ n = 0 /\ resets = 0 /\ loop = "idle" /\ saved = NoSnap
 
 Step(e) ==
   /\ LET r == StepCtl(c, [steps |-> steps, pc |-> pc, cont |-> cont], e) IN
        steps' = r.steps /\ pc' = r.pc /\ cont' = r.cont
   /\ hist' = IF KeepHist THEN Append(hist, e) ELSE hist
   /\ n' = n + 1
-  /\ UNCHANGED <<c, resets>>
+  /\ UNCHANGED <<c, resets, saved>>
 
 UserStep == \E e \in Events : loop = "idle" /\ Step(e) /\ UNCHANGED loop
+
+\* scheduler.state_dict() ... later: a NEW scheduler object .load_state_dict(snapshot)  (checkpoint / restore).
+\* The restored controller must behave exactly like the one that was saved.
+Save ==
+  /\ WithSnap /\ loop = "idle" /\ saved = NoSnap
+  /\ saved' = [steps |-> steps, pc |-> pc, cont |-> cont, hist |-> hist, n |-> n]
+  /\ UNCHANGED <<c, steps, pc, cont, hist, n, resets, loop>>
+Restore ==
+  /\ WithSnap /\ loop = "idle" /\ saved # NoSnap /\ resets < MaxResets
+  /\ steps' = saved.steps /\ pc' = saved.pc /\ cont' = saved.cont /\ hist' = saved.hist /\ n' = saved.n
+  /\ resets' = resets + 1
+  /\ UNCHANGED <<c, loop, saved>>
 
 Reset ==
   /\ loop = "idle"
   /\ resets < MaxResets
   /\ steps' = 0 /\ pc' = 0 /\ cont' = TRUE /\ hist' = <<>> /\ n' = 0
   /\ resets' = resets + 1
-  /\ UNCHANGED <<c, loop>>
+  /\ UNCHANGED <<c, loop, saved>>
 
 \* Driver loops: ICP.forward and MPC.forward are   reset(); while continual(): body; step(loss)
 \* scheduler.optimize is                            while continual(): optimizer.step; step(loss)
 LoopStart ==
   /\ loop = "idle" /\ resets < MaxResets
   /\ steps' = 0 /\ pc' = 0 /\ cont' = TRUE /\ hist' = <<>> /\ n' = 0
-  /\ resets' = resets + 1 /\ loop' = "running" /\ UNCHANGED c
+  /\ resets' = resets + 1 /\ loop' = "running" /\ UNCHANGED <<c, saved>>
 
 LoopBody == \E e \in Events : loop = "running" /\ cont /\ Step(e) /\ UNCHANGED loop
 
 LoopExit == loop = "running" /\ ~cont /\ loop' = "done"
-            /\ UNCHANGED <<c, steps, pc, cont, hist, n, resets>>
+            /\ UNCHANGED <<c, steps, pc, cont, hist, n, resets, saved>>
 
 LoopReturn == loop = "done" /\ loop' = "idle"
-            /\ UNCHANGED <<c, steps, pc, cont, hist, n, resets>>
+            /\ UNCHANGED <<c, steps, pc, cont, hist, n, resets, saved>>
 
-Next == UserStep \/ Reset \/ LoopStart \/ LoopBody \/ LoopExit \/ LoopReturn
+Next == UserStep \/ Reset \/ LoopStart \/ LoopBody \/ LoopExit \/ LoopReturn \/ Save \/ Restore
 
 Spec == Init /\ [][Next]_vars /\ WF_vars(LoopBody) /\ WF_vars(LoopExit)
 
@@ -118,11 +133,15 @@ TrailingRun ==
     /\ (pc < Len(hist) => ~NoImp(hist[Len(hist) - pc]))
 
 \* Once false it stays false until reset (the only actions making cont true reset n).
-StaysStopped == [][(~cont /\ cont') => n' = 0]_vars
+StaysStopped == [][(~cont /\ cont') => (n' = 0 \/ (saved # NoSnap /\ n' = saved.n /\ cont' = saved.cont))]_vars
 
 \* Reset restores the initial controller state.
 ResetRestoresInitial ==
   [][(n' = 0) => (steps' = 0 /\ pc' = 0 /\ cont' = TRUE)]_vars
+\* a restored controller is indistinguishable from the saved one
+RestoreRestoresSaved ==
+  [][(saved # NoSnap /\ saved' = saved /\ resets' = resets + 1 /\ n' = saved.n /\ n' # 0)
+        => (steps' = saved.steps /\ pc' = saved.pc /\ cont' = saved.cont)]_vars
 
 \* Every driver loop ends after at most max(1, max) controller steps ...
 LoopBounded == (loop \in {"running", "done"}) => n <= (IF c.max < 1 THEN 1 ELSE c.max)
